@@ -389,11 +389,10 @@ func bwdSources(v ssa.Value) map[ssa.Value]bool {
 			walk(x.X)
 		case *ssa.UnOp:
 			if x.Op == token.MUL {
-				if al, ok := x.X.(*ssa.Alloc); ok {
-					for _, in := range refs(al) {
-						if st, ok := in.(*ssa.Store); ok && st.Addr == al {
-							walk(st.Val)
-						}
+				switch x.X.(type) {
+				case *ssa.Alloc, *ssa.FreeVar:
+					for _, st := range cellStores(x.X) {
+						walk(st.Val)
 					}
 				}
 			}
@@ -401,6 +400,70 @@ func bwdSources(v ssa.Value) map[ssa.Value]bool {
 	}
 	walk(v)
 	return seen
+}
+
+// cellStores: every store into a local variable cell, whether made by the
+// function that declares it or by a function literal that captured it.  addr
+// is the cell's Alloc or a FreeVar bound to it.
+func cellStores(addr ssa.Value) []*ssa.Store {
+	// up to the declaring Alloc
+	for i := 0; i < 4; i++ {
+		fv, ok := addr.(*ssa.FreeVar)
+		if !ok {
+			break
+		}
+		cf := fv.Parent()
+		idx := -1
+		for j, q := range cf.FreeVars {
+			if q == fv {
+				idx = j
+			}
+		}
+		par := cf.Parent()
+		if par == nil || idx < 0 {
+			return nil
+		}
+		var up ssa.Value
+		for _, b := range par.Blocks {
+			for _, in := range b.Instrs {
+				if mc, ok := in.(*ssa.MakeClosure); ok && mc.Fn == ssa.Value(cf) && idx < len(mc.Bindings) {
+					up = mc.Bindings[idx]
+				}
+			}
+		}
+		if up == nil {
+			return nil
+		}
+		addr = up
+	}
+	var out []*ssa.Store
+	var down func(cell ssa.Value, depth int)
+	down = func(cell ssa.Value, depth int) {
+		rs := cell.Referrers()
+		if rs == nil || depth > 3 {
+			return
+		}
+		for _, in := range *rs {
+			switch x := in.(type) {
+			case *ssa.Store:
+				if x.Addr == cell {
+					out = append(out, x)
+				}
+			case *ssa.MakeClosure:
+				cf, ok := x.Fn.(*ssa.Function)
+				if !ok {
+					continue
+				}
+				for j, bnd := range x.Bindings {
+					if bnd == cell && j < len(cf.FreeVars) {
+						down(cf.FreeVars[j], depth+1)
+					}
+				}
+			}
+		}
+	}
+	down(addr, 0)
+	return out
 }
 
 func ruleZ3(c *Ctx, id string) {
